@@ -1,5 +1,563 @@
 package main
 
-import "verifharness/mbt"
+// (V) side of C14: seeded histories on the REAL gno.land application (verifharness/appenv),
+// one NDJSON line per transaction / commit. After every Commit the application's database is
+// copied and opened with an INDEPENDENT multistore + keepers; the raw dump of both balance
+// tiers, the supply counters and the account objects is taken from there, and the repository's
+// own bank.AllInvariants / auth.AllInvariants are evaluated on that committed state.
 
-func record(f *mbt.Flags) { mbt.Die("record: not built yet") }
+import (
+	"bufio"
+	"encoding/json"
+	"fmt"
+	"math/rand"
+	"os"
+	"time"
+
+	"github.com/gnolang/gno/gno.land/pkg/gnoland"
+	"github.com/gnolang/gno/gno.land/pkg/sdk/vm"
+	abci "github.com/gnolang/gno/tm2/pkg/bft/abci/types"
+	bft "github.com/gnolang/gno/tm2/pkg/bft/types"
+	"github.com/gnolang/gno/tm2/pkg/crypto"
+	dbm "github.com/gnolang/gno/tm2/pkg/db"
+	"github.com/gnolang/gno/tm2/pkg/log"
+	"github.com/gnolang/gno/tm2/pkg/sdk"
+	"github.com/gnolang/gno/tm2/pkg/sdk/auth"
+	"github.com/gnolang/gno/tm2/pkg/sdk/bank"
+	"github.com/gnolang/gno/tm2/pkg/sdk/params"
+	"github.com/gnolang/gno/tm2/pkg/std"
+	"github.com/gnolang/gno/tm2/pkg/store"
+	storebptree "github.com/gnolang/gno/tm2/pkg/store/bptree"
+	"github.com/gnolang/gno/tm2/pkg/store/dbadapter"
+
+	"verifharness/appenv"
+	"verifharness/mbt"
+)
+
+const bankPath = "gno.land/r/verif/bank"
+
+const bankSrc = `package bank
+
+import (
+	"chain"
+	"chain/banker"
+	"strings"
+)
+
+const denom = "/gno.land/r/verif/bank:tok"
+
+var blob string = "seed"
+
+func Mint(cur realm, to address, n int64) {
+	banker.NewBanker(banker.BankerTypeRealmIssue, cur).IssueCoin(to, denom, n)
+}
+
+func Burn(cur realm, from address, n int64) {
+	banker.NewBanker(banker.BankerTypeRealmIssue, cur).RemoveCoin(from, denom, n)
+}
+
+func MintPanic(cur realm, to address, n int64) {
+	banker.NewBanker(banker.BankerTypeRealmIssue, cur).IssueCoin(to, denom, n)
+	panic("after mint")
+}
+
+// Pay accepts whatever was attached to the call.
+func Pay(cur realm) {}
+
+// Give sends coins the realm holds (ugnot it was paid, or its own token).
+func Give(cur realm, to address, d string, n int64) {
+	banker.NewBanker(banker.BankerTypeRealmSend, cur).SendCoins(cur.Address(), to, chain.Coins{chain.Coin{d, n}})
+}
+
+// Grow changes the realm's storage size: a storage deposit is locked or refunded.
+func Grow(cur realm, n int) {
+	blob = strings.Repeat("x", n)
+}
+`
+
+var vNames = []string{"a", "b", "c", "v", "w", "x", "y", "realm", "dep", "coll", "dpl"}
+
+type vworld struct {
+	e      *appenv.Env
+	accts  map[string]*appenv.Account
+	addrs  map[string]crypto.Address
+	names  map[crypto.Address]string
+	rng    *rand.Rand
+	out    *bufio.Writer
+	lines  int
+	gen    time.Time
+	counts map[string]int
+}
+
+func (w *vworld) emit(v any) {
+	bz, err := json.Marshal(v)
+	if err != nil {
+		panic(err)
+	}
+	w.out.Write(bz)
+	w.out.WriteByte('\n')
+	w.lines++
+}
+
+// committedDump copies the application's database and reads the committed state through an
+// independent multistore and independent keepers.
+func (w *vworld) committedDump() *dump {
+	ro := &roDB{DB: w.e.DB}
+	d := dumpDB(ro, w.names, w.gen)
+	if ro.wrote {
+		mbt.Die("the independent reader attempted to write to the application's database")
+	}
+	return d
+}
+
+// roDB lets a second multistore read the application's database; writes are swallowed and flagged
+// (opening the committed state must never modify it).
+type roDB struct {
+	dbm.DB
+	wrote bool
+}
+
+func (r *roDB) Set(k, v []byte) error     { r.wrote = true; return nil }
+func (r *roDB) SetSync(k, v []byte) error { r.wrote = true; return nil }
+func (r *roDB) Delete(k []byte) error     { r.wrote = true; return nil }
+func (r *roDB) DeleteSync(k []byte) error { r.wrote = true; return nil }
+func (r *roDB) NewBatch() dbm.Batch       { return &roBatch{r: r} }
+func (r *roDB) NewBatchWithSize(int) dbm.Batch {
+	return &roBatch{r: r}
+}
+func (r *roDB) Close() error { return nil }
+
+type roBatch struct {
+	r *roDB
+	n int
+}
+
+func (b *roBatch) Set(k, v []byte) error { b.n++; return nil }
+func (b *roBatch) Delete(k []byte) error { b.n++; return nil }
+func (b *roBatch) Write() error {
+	if b.n > 0 {
+		b.r.wrote = true
+	}
+	return nil
+}
+func (b *roBatch) WriteSync() error          { return b.Write() }
+func (b *roBatch) Close() error              { return nil }
+func (b *roBatch) GetByteSize() (int, error) { return 0, nil }
+
+func dumpDB(db dbm.DB, names map[crypto.Address]string, gen time.Time) *dump {
+	baseKey := store.NewStoreKey("base")
+	mainKey := store.NewStoreKey("main")
+	ms := store.NewCommitMultiStore(db)
+	ms.MountStoreWithDB(mainKey, storebptree.FastStoreConstructor, db)
+	ms.MountStoreWithDB(baseKey, dbadapter.StoreConstructor, db)
+	if err := ms.LoadLatestVersion(); err != nil {
+		mbt.Die("load copy: %v", err)
+	}
+	prmk := params.NewParamsKeeper(mainKey)
+	acck := auth.NewAccountKeeper(mainKey, prmk.ForModule(auth.ModuleName), gnoland.ProtoGnoAccount, gnoland.ProtoGnoSessionAccount)
+	view := bank.NewViewKeeper(acck, mainKey, []string{denomU})
+	ctx := sdk.NewContext(sdk.RunTxModeDeliver, ms.MultiCacheWrap(), &bft.Header{ChainID: appenv.ChainID, Height: 1, Time: gen}, log.NewNoopLogger())
+	d := rawDump(ctx, mainKey, names, vNames, 1)
+	msg, broken := bank.AllInvariants(view)(ctx)
+	d.BankInv, d.bankMsg = !broken, msg
+	if msg, broken := auth.AllInvariants(acck)(ctx); broken {
+		d.authMsg = msg
+	}
+	// vesting schedules (needed by the spec to predict which debits are refused)
+	d.Vs = map[string]any{}
+	for _, n := range vNames {
+		d.Vs[n] = map[string]any{"type": "none", "ov": map[string]int64{"u": 0, "t": 0}, "start": 0, "end": 0}
+	}
+	acck.IterateAccounts(ctx, func(acc std.Account) bool {
+		n, ok := names[acc.GetAddress()]
+		if !ok {
+			return false
+		}
+		var vs std.VestingSchedule
+		typ := ""
+		switch a := acc.(type) {
+		case *std.ContinuousVestingAccount:
+			vs, typ = a.VestingSchedule, "cont"
+		case *std.DelayedVestingAccount:
+			vs, typ = a.VestingSchedule, "delayed"
+		default:
+			return false
+		}
+		start := vs.StartTime - gen.Unix()
+		if typ == "delayed" {
+			start = 0
+		}
+		d.Vs[n] = map[string]any{"type": typ, "ov": map[string]int64{"u": vs.OriginalVesting.AmountOf(denomU), "t": vs.OriginalVesting.AmountOf(denomT)},
+			"start": start, "end": vs.EndTime - gen.Unix()}
+		return false
+	})
+	return d
+}
+
+func (d *dump) stJSON(withVs bool) map[string]any {
+	m := map[string]any{"acct": d.Acct, "split": d.Split, "supply": d.Supply, "accs": d.Accs, "nextnum": d.NextNum, "bankinv": d.BankInv}
+	if withVs {
+		m["vs"] = d.Vs
+	}
+	return m
+}
+
+type vmsg struct {
+	Kind string           `json:"kind"` // send | multisend | call
+	From string           `json:"from"`
+	To   string           `json:"to"`
+	Amt  map[string]int64 `json:"amt"`
+	Send map[string]int64 `json:"send"`
+	Fn   string           `json:"fn"`
+	Dep  int64            `json:"dep"`
+	Ins  []vio            `json:"ins"`
+	Outs []vio            `json:"outs"`
+	grow int
+}
+
+type vio struct {
+	A   string           `json:"a"`
+	Amt map[string]int64 `json:"amt"`
+}
+
+type vtx struct {
+	Signer string `json:"signer"`
+	Fee    int64  `json:"fee"`
+	Msgs   []vmsg `json:"msgs"`
+	badSig bool
+	gw     int64
+}
+
+func zc() map[string]int64 { return map[string]int64{"u": 0, "t": 0} }
+func cz(u, t int64) map[string]int64 {
+	return map[string]int64{"u": u, "t": t}
+}
+
+func coinsOf(m map[string]int64) std.Coins {
+	var out std.Coins
+	if m["t"] != 0 {
+		out = append(out, std.Coin{Denom: denomT, Amount: m["t"]})
+	}
+	if m["u"] != 0 {
+		out = append(out, std.Coin{Denom: denomU, Amount: m["u"]})
+	}
+	return out
+}
+
+func (w *vworld) build(t *vtx, bump map[string]uint64) std.Tx {
+	var msgs []std.Msg
+	signer := w.accts[t.Signer]
+	for _, m := range t.Msgs {
+		switch m.Kind {
+		case "send":
+			msgs = append(msgs, bank.MsgSend{FromAddress: w.addrs[m.From], ToAddress: w.addrs[m.To], Amount: coinsOf(m.Amt)})
+		case "multisend":
+			var ins []bank.Input
+			var outs []bank.Output
+			for _, i := range m.Ins {
+				ins = append(ins, bank.NewInput(w.addrs[i.A], coinsOf(i.Amt)))
+			}
+			for _, o := range m.Outs {
+				outs = append(outs, bank.NewOutput(w.addrs[o.A], coinsOf(o.Amt)))
+			}
+			msgs = append(msgs, bank.MsgMultiSend{Inputs: ins, Outputs: outs})
+		case "call":
+			var args []string
+			switch m.Fn {
+			case "Mint", "Burn", "MintPanic":
+				args = []string{w.addrs[m.To].String(), fmt.Sprint(m.Amt["t"])}
+			case "Give":
+				d, n := denomU, m.Amt["u"]
+				if m.Amt["t"] != 0 {
+					d, n = denomT, m.Amt["t"]
+				}
+				args = []string{w.addrs[m.To].String(), d, fmt.Sprint(n)}
+			case "Grow":
+				args = []string{fmt.Sprint(m.grow)}
+			}
+			msgs = append(msgs, vm.NewMsgCall(w.addrs[m.From], coinsOf(m.Send), bankPath, m.Fn, args))
+		}
+	}
+	num, seq := accNumSeq(w.e, signer.Addr)
+	tx := appenv.SignTx(msgs, t.gw, t.Fee, appenv.ChainID, signer, num, seq+bump[t.Signer])
+	if t.badSig {
+		tx.Signatures[0].Signature[5] ^= 0x04
+	}
+	return tx
+}
+
+// accNumSeq reads account number and sequence of any account type (appenv.Account only
+// understands the JSON shape of plain accounts) through the auth/accounts query.
+func accNumSeq(e *appenv.Env, addr crypto.Address) (uint64, uint64) {
+	res := e.App.Query(abci.RequestQuery{Path: "auth/accounts/" + addr.String()})
+	if !res.IsOK() || len(res.Data) == 0 || string(res.Data) == "null" {
+		return 0, 0
+	}
+	var v any
+	if err := json.Unmarshal(res.Data, &v); err != nil {
+		return 0, 0
+	}
+	ba := findBaseAccount(v)
+	if ba == nil {
+		return 0, 0
+	}
+	var num, seq uint64
+	fmt.Sscan(fmt.Sprint(ba["account_number"]), &num)
+	fmt.Sscan(fmt.Sprint(ba["sequence"]), &seq)
+	return num, seq
+}
+
+// findBaseAccount finds the (possibly nested: vesting accounts embed twice) BaseAccount object.
+func findBaseAccount(v any) map[string]any {
+	m, ok := v.(map[string]any)
+	if !ok {
+		return nil
+	}
+	if _, ok := m["account_number"]; ok {
+		return m
+	}
+	for _, x := range m {
+		if r := findBaseAccount(x); r != nil {
+			return r
+		}
+	}
+	return nil
+}
+
+func (w *vworld) pick(xs ...string) string { return xs[w.rng.Intn(len(xs))] }
+
+func (w *vworld) randMsg(signer string) vmsg {
+	m := vmsg{From: signer, To: "a", Amt: zc(), Send: zc(), Ins: []vio{}, Outs: []vio{}}
+	any := func() string { return w.pick("a", "b", "c", "v", "x", "y", "realm") }
+	small := func() int64 { return int64(1 + w.rng.Intn(400_000)) }
+	switch p := w.rng.Intn(100); {
+	case p < 32: // (bank.MsgMultiSend is not registered with amino: it cannot travel in a transaction)
+		m.Kind, m.To = "send", any()
+		m.Amt = cz(small(), 0)
+		if w.rng.Intn(3) == 0 {
+			m.Amt["t"] = int64(1 + w.rng.Intn(40))
+		}
+		if w.rng.Intn(4) == 0 {
+			m.Amt["u"] = 0
+			m.Amt["t"] = int64(1 + w.rng.Intn(40))
+		}
+		if w.rng.Intn(9) == 0 {
+			m.Amt["u"] = 1_900_000_000 // overdraft
+		}
+		if signer == "v" && w.rng.Intn(2) == 0 {
+			m.Amt["u"] = int64(1_000_000 + w.rng.Intn(1_500_000)) // around the vesting account's spendable part
+		}
+	case p < 50:
+		m.Kind, m.Fn, m.To = "call", "Mint", any()
+		m.Amt = cz(0, int64(1+w.rng.Intn(60)))
+	case p < 62:
+		m.Kind, m.Fn, m.To = "call", "Burn", w.pick("a", "b", "c", "v", "x", "realm")
+		m.Amt = cz(0, int64(1+w.rng.Intn(25)))
+	case p < 67:
+		m.Kind, m.Fn, m.To = "call", "MintPanic", any()
+		m.Amt = cz(0, int64(1+w.rng.Intn(60)))
+	case p < 78:
+		m.Kind, m.Fn = "call", "Pay"
+		m.Send = cz(small(), 0)
+		if w.rng.Intn(5) == 0 {
+			m.Send["t"] = int64(1 + w.rng.Intn(20))
+		}
+	case p < 90:
+		m.Kind, m.Fn, m.To = "call", "Give", any()
+		if w.rng.Intn(2) == 0 {
+			m.Amt = cz(int64(1+w.rng.Intn(50_000)), 0)
+		} else {
+			m.Amt = cz(0, int64(1+w.rng.Intn(10)))
+		}
+	default:
+		m.Kind, m.Fn = "call", "Grow"
+		m.grow = 200 + w.rng.Intn(3000)
+	}
+	return m
+}
+
+func hasGrow(t *vtx) bool {
+	for _, m := range t.Msgs {
+		if m.Fn == "Grow" {
+			return true
+		}
+	}
+	return false
+}
+
+func (w *vworld) randTx(allowGrow bool) *vtx {
+	t := &vtx{Signer: w.pick("a", "b", "c", "v", "v", "x"), Fee: int64(50_000 + w.rng.Intn(200_000)), gw: 30_000_000}
+	n := 1 + w.rng.Intn(3)
+	for k := 0; k < n; k++ {
+		m := w.randMsg(t.Signer)
+		if m.Fn == "Grow" && (!allowGrow || hasGrow(t) || (t.Signer != "a" && t.Signer != "c")) {
+			m = vmsg{Kind: "call", Fn: "Pay", From: t.Signer, To: "a", Amt: zc(), Send: cz(int64(1+w.rng.Intn(1000)), 0), Ins: []vio{}, Outs: []vio{}}
+		}
+		t.Msgs = append(t.Msgs, m)
+	}
+	switch p := w.rng.Intn(100); {
+	case p < 6:
+		t.badSig = true
+	case p < 9:
+		t.Fee = 2_000_000_000 // above any balance
+	case p < 11:
+		t.Signer = "w" // no account
+		for i := range t.Msgs {
+			t.Msgs[i].From = "w"
+			if len(t.Msgs[i].Ins) > 0 {
+				t.Msgs[i].Ins[0].A = "w"
+			}
+		}
+	}
+	return t
+}
+
+func (w *vworld) block(dt int, txs []*vtx) {
+	w.e.Time = w.e.Time.Add(time.Duration(dt)*time.Second - 5*time.Second) // appenv.BeginBlock adds 5 s
+	depBefore := w.e.Balance(w.addrs["dep"])
+	w.e.BeginBlock()
+	rel := w.e.Time.Unix() - w.gen.Unix()
+	type done struct {
+		t    *vtx
+		ok   bool
+		ante bool
+		cls  string
+	}
+	var ds []done
+	grown := -1
+	bump := map[string]uint64{}
+	for i, t := range txs {
+		var r = w.e.Deliver(w.build(t, bump))
+		d := done{t: t, ok: r.IsOK(), ante: r.GasWanted > 0, cls: appenv.ErrClass(r.Error)}
+		if d.ante {
+			bump[t.Signer]++ // the sequence moved in the block's working state
+		}
+		ds = append(ds, d)
+		w.counts["tx"]++
+		if d.ok {
+			w.counts["ok"]++
+			if hasGrow(t) {
+				grown = i
+			}
+		} else if !d.ante {
+			w.counts["ante-reject:"+d.cls]++
+		} else {
+			w.counts["fail:"+d.cls]++
+		}
+	}
+	w.e.EndBlockCommit()
+	st := w.committedDump()
+	if grown >= 0 {
+		// the storage deposit locked (+) or refunded (-) by the single successful Grow of this block:
+		// an input observed at the deposit address, independent of the caller's balance
+		dep := st.Acct["dep"]["u"] - depBefore
+		for k := range ds[grown].t.Msgs {
+			if ds[grown].t.Msgs[k].Fn == "Grow" {
+				ds[grown].t.Msgs[k].Dep = dep
+				if dep > 0 {
+					w.counts["deposit-lock"]++
+				} else if dep < 0 {
+					w.counts["deposit-refund"]++
+				}
+			}
+		}
+	}
+	for _, d := range ds {
+		w.emit(map[string]any{"act": "Tx", "t": rel, "signer": d.t.Signer, "fee": d.t.Fee, "ante": d.ante, "ok": d.ok, "msgs": d.t.Msgs})
+	}
+	w.emit(map[string]any{"act": "Commit", "t": rel, "st": st.stJSON(false)})
+	w.flag(st)
+}
+
+// flag reports raw well-formedness findings and broken repository invariants on the committed
+// state directly (they are also part of the trace: bankinv must be TRUE in every recorded state).
+func (w *vworld) flag(st *dump) {
+	if len(st.bad) > 0 {
+		mbt.Mismatch("C14:app:raw-store", fmt.Sprintf("committed state of the application is not well-formed: %v", st.bad), map[string]any{"seed": os.Getenv("VERIF_SEED"), "line": w.lines})
+	}
+	if st.authMsg != "" {
+		mbt.Mismatch("C14:app:auth-invariant", "auth.AllInvariants broken on committed state: "+st.authMsg, map[string]any{"seed": os.Getenv("VERIF_SEED"), "line": w.lines})
+	}
+	if !st.BankInv {
+		mbt.Mismatch("C14:app:bank-invariant", "bank.AllInvariants broken on committed state: "+st.bankMsg, map[string]any{"seed": os.Getenv("VERIF_SEED"), "line": w.lines})
+	}
+}
+
+func record(f *mbt.Flags) {
+	rng := f.Rand()
+	outf, err := os.Create(f.Out)
+	if err != nil {
+		mbt.Die("%v", err)
+	}
+	w := &vworld{rng: rng, out: bufio.NewWriterSize(outf, 1<<16), accts: map[string]*appenv.Account{}, addrs: map[string]crypto.Address{},
+		names: map[crypto.Address]string{}, counts: map[string]int{}}
+	for _, n := range []string{"a", "b", "c", "v", "w", "x", "y", "dpl"} {
+		w.accts[n] = appenv.NewAccount("bank-" + n)
+		w.addrs[n] = w.accts[n].Addr
+	}
+	w.addrs["realm"] = appenv.PkgAddr(bankPath)
+	w.addrs["dep"] = appenv.DepositAddr(bankPath)
+	w.addrs["coll"] = auth.DefaultParams().FeeCollector
+	for n, a := range w.addrs {
+		w.names[a] = n
+	}
+	w.gen = time.Unix(1_700_000_000, 0).UTC()
+	vEnd := int64(40 + rng.Intn(60))
+	e, err := appenv.New(appenv.Options{
+		Time:     w.gen,
+		Balances: map[crypto.Address]int64{w.addrs["a"]: 300_000_000, w.addrs["b"]: 200_000_000, w.addrs["c"]: 250_000_000, w.addrs["dpl"]: 100_000_000},
+		Deployer: w.accts["dpl"],
+		Pkgs:     []appenv.Pkg{{Path: bankPath, Files: map[string]string{"bank.gno": bankSrc}}},
+		Mutate: func(gs *gnoland.GnoGenesisState) {
+			gs.Balances = append(gs.Balances, gnoland.Balance{Address: w.addrs["v"], Amount: std.Coins{{Denom: denomU, Amount: 6_000_000}},
+				Vesting: &std.VestingSchedule{OriginalVesting: std.Coins{{Denom: denomU, Amount: 4_000_000}}, StartTime: w.gen.Unix() + 10, EndTime: w.gen.Unix() + vEnd}})
+		},
+	})
+	if err != nil {
+		mbt.Die("new: %v", err)
+	}
+	w.e = e
+	st0 := w.committedDump()
+
+	w.flag(st0)
+	w.emit(map[string]any{"act": "Init", "t": 0, "st": st0.stJSON(true)})
+	n := f.N
+	if n <= 0 {
+		n = 40
+	}
+	for b := 0; b < n; b++ {
+		var txs []*vtx
+		k := 1
+		if rng.Intn(3) == 0 {
+			k = 2 + rng.Intn(3)
+		}
+		grow := true
+		if b%5 == 2 {
+			// a storage deposit is locked (growth) or refunded (shrink) in every run
+			sz := 200 + rng.Intn(800)
+			if (b/5)%2 == 0 {
+				sz = 2500 + rng.Intn(2500)
+			}
+			txs = append(txs, &vtx{Signer: w.pick("a", "c"), Fee: int64(50_000 + rng.Intn(100_000)), gw: 30_000_000,
+				Msgs: []vmsg{{Kind: "call", Fn: "Grow", Amt: zc(), Send: zc(), Ins: []vio{}, Outs: []vio{}, grow: sz}}})
+			txs[0].Msgs[0].From = txs[0].Signer
+			txs[0].Msgs[0].To = "a"
+			grow = false
+		}
+		for i := 0; i < k; i++ {
+			t := w.randTx(grow)
+			if hasGrow(t) {
+				grow = false
+			}
+			txs = append(txs, t)
+		}
+		w.block(1+rng.Intn(9), txs)
+	}
+	w.out.Flush()
+	outf.Close()
+	sum := map[string]any{"lines": w.lines, "blocks": n}
+	for k, v := range w.counts {
+		sum["n_"+k] = v
+	}
+	mbt.Summary(sum)
+}
